@@ -161,9 +161,18 @@ def tls_flow_check(o, conn, ep, sport_out=None):
 
 
 def quic_flow_list(o, ep, sport_out=None):
+    """non-empty exported datagrams between the connection's client (address + port) and its server ADDRESS; the exported
+    server port is the business of C10 (pass sport_out to insist on one)"""
     key, c, s = ep_key(ep, 17, sport_out)
-    pk = o.flows.get(key, [])
-    return [((p.sip, p.sport) == s, p.payload, p) for p in pk if p.payload]
+    out = []
+    for p in o.pkts or []:
+        if p.proto != 17 or not p.payload:
+            continue
+        if (p.sip, p.sport) == c and p.dip == s[0] and (sport_out is None or p.dport == s[1]):
+            out.append((False, p.payload, p))
+        elif (p.dip, p.dport) == c and p.sip == s[0] and (sport_out is None or p.sport == s[1]):
+            out.append((True, p.payload, p))
+    return out
 
 
 def quic_flow_check(o, conn, ep, sport_out=None):
